@@ -54,7 +54,7 @@ POOLSIM_ESSENTIAL = {
             "C07.started-before-last-response", "C07.disabled", "C07.extreme-window", "C07.saturated-window"],
     "C08": ["C08.fallback", "C08.place", "C08.sticky", "C08.place-saturated"],
     "C09": ["C09.successor", "C09.rr-wait", "C09.waiter-released", "C09.ctx-end", "C09.cursor-near-2^31", "C09.big-pool"],
-    "C20": ["C20.addr", "C20.replacement-addr", "C20.new-addr", "C20.resolver-error"],
+    "C20": ["C20.addr", "C20.replacement-addr", "C20.new-addr", "C20.resolver-error", "C20.resolver-error-before-first-update"],
 }
 
 
@@ -197,7 +197,7 @@ PROPS["C01"]["assumptions"] = PROPS["C01"]["assumptions"] + ["poollin stage: per
 PROPS["C02"]["stages"].append(stress_stage({"C02": ["C02.stress-quiescent-zero", "stress.placed", "C02.stress-balanced-fill"]}))
 PROPS["C07"]["stages"].append(stress_stage({"C07": ["C07.stress-one-replacement", "C07.stress-concurrent-timeouts"]}))
 PROPS["C20"]["stages"].append(stress_stage({"C20": ["C20.stress-update-during-refresh-create"]}))
-PROPS["C03"]["stages"].append(stress_stage({"C03": ["C03.stress-max", "C03.slow-factory-grow"]}))  # the gate scenario's counter is not essential: after a refactoring its site may not exist (then it is inconclusive)
+PROPS["C03"]["stages"].append(stress_stage({"C03": ["C03.stress-max", "C03.slow-factory-grow", "C03.stress-refresh-extra"]}))  # the gate scenario's counter is not essential: after a refactoring its site may not exist (then it is inconclusive)
 PROPS["C09"]["stages"].append(stress_stage({"C09": ["C09.stress-exact", "C09.stress-bind-picks"]}))
 PROPS["C05"]["stages"].append(dict(name="stream", engine="stream", test="TestVerifStream", batches=dict(quick=8, thorough=16),
                                   essential={"C05": ["C12.not-created-at-construction", "C12.bystander:before-send"]}, timeout=dict(quick=900, thorough=7200)))
